@@ -205,6 +205,17 @@ func (s *V2Session) buildAndSend(ctx context.Context, c ipmi.Command) error {
 		if err := types.InnermostEquals(ipmi.LayerTypeMessage); err != nil {
 			return err
 		}
+		// the session layer only verifies the signature of packets that claim
+		// to be signed, and knows nothing of our ID, so a packet that is
+		// unsigned or meant for another session is not a response to us
+		if s.integrityAlgorithm != nil && !s.v2SessionLayer.Authenticated {
+			return fmt.Errorf("response is not authenticated, but %v was negotiated",
+				s.IntegrityAlgorithm)
+		}
+		if s.v2SessionLayer.ID != s.LocalID {
+			return fmt.Errorf("response is addressed to session %#x, ours is %#x",
+				s.v2SessionLayer.ID, s.LocalID)
+		}
 		code := s.messageLayer.CompletionCode
 		// must increment here, otherwise we'll miss temporary codes at the
 		// higher levels
